@@ -779,6 +779,8 @@ package server
 //@   ensures [id-without-running-sync-rejected] !old(ds.fullSyncStarted) && fullSyncID != "" ==> result != nil
 //@   ensures [matching-refresh-keeps-the-sync] old(ds.fullSyncStarted) && fullSyncID == old(ds.fullSyncID) ==> result == nil && ds.fullSyncStarted && ds.fullSyncID == old(ds.fullSyncID) && ds.fullSyncSeen == old(ds.fullSyncSeen) && ds.fullSyncLease != nil
 //@   dyncall cancel pure
+//@   at call cancel#1 before
+//@     assert [C09:lease-cancelled-only-for-the-sync-that-owns-it] ds.fullSyncStarted && fullSyncID == ds.fullSyncID
 
 //@ assumed (*Dataset).MapEntities
 //@   preserves Dataset.fullSyncStarted, Dataset.fullSyncSeen, Dataset.fullSyncID, Dataset.fullSyncLease, Dataset.store, map[uint64]int
